@@ -254,6 +254,15 @@ def r4_order(c, facts):
             c.bad(R, 'builtins-share-module-scope', 'resolve() declares the built-ins in the scope of the module\'s own declarations (no Env::open in between): `let concat = ..` is a duplicate instead of shadowing the built-in')
         else:
             c.ok(R, {'resolve': 'the module scope is opened above the built-ins'})
+    # ... and imports come before them: a declaration named like an imported one shadows it
+    if 'resolve::declare_import' in where and 'resolve::declare_variable' in where:
+        opens = {b for b, _ in P.call_blocks(fn, 'env::Env::open')}
+        imp = where['resolve::declare_import']
+        # leave the import loop: blocks reachable from the import phase without passing an open
+        if where['resolve::declare_variable'] in fn.reachable_from(imp, avoid=opens):
+            c.bad(R, 'imports-share-module-scope', 'resolve() declares imported names in the scope of the module\'s own declarations (no Env::open in between): `use "m.oal"; let x = ..` with an `x` in m.oal is a duplicate instead of the declaration shadowing the import')
+        else:
+            c.ok(R, {'resolve': 'the declarations of the module get a scope above the imported names'})
     dv = c.anchor(R, 'oal_compiler::resolve::declare_variable')
     if branches_on_result(dv, 'env::Env::declare') and has_kind(dv, 'InvalidIdentifier'):
         c.ok(R, {'declare_variable': 'Err(InvalidIdentifier) depending on the previous definition returned by Env::declare'})
